@@ -94,6 +94,9 @@ func (v *VStruct) Valid(src interface{}) error {
 	}
 
 	reflectValue := RemoveValuePtr(reflect.ValueOf(src))
+	if !reflectValue.IsValid() { // 类型化的 nil 指针
+		return errors.New("src is nil")
+	}
 	switch reflectValue.Kind() {
 	case reflect.Ptr:
 		if reflectValue.IsNil() {
